@@ -438,9 +438,9 @@ func protocolLevelC06(r *Run, rng *rand.Rand, thorough bool) {
 	var all []injSpec
 	for _, p := range protos {
 		specs := enumerateGridSpecs(rng, p, thorough)
-		if thorough && len(specs) > 600 {
+		if thorough && len(specs) > 280 {
 			rng.Shuffle(len(specs), func(i, j int) { specs[i], specs[j] = specs[j], specs[i] })
-			specs = specs[:600]
+			specs = specs[:280]
 		}
 		// hash-correct de-commitments of the wrong arity
 		if !strings.Contains(p.name, "@") {
